@@ -31,6 +31,9 @@ RULE = ('(a) 2-4 engines in one interpreter, each with its own history of 8-30 o
 ASSUMPTIONS = ['evaluate_bounded is excluded (interpreter-wide recursion limit), as the property states',
                'threads share only what the interpreter shares; ANTLR compilation happens in the main thread before the threads start',
                'no database change while an enumeration is suspended within one engine (that is C14)']
+RULE_ADDED = (' Added after the rounds of independently written changes (DESIGN.md 12.2): ' +
+              'tables of 16-40 facts with the same keys in every engine; facts with a variable repeated around a wide term, queried from threads; predicates named like API functions (atom, functor, query ...) defined, registered and queried; the host creates its query variables long before it uses them.')
+RULE = RULE + RULE_ADDED
 
 NAMES = ['p', 'q', 't']
 PROBES = [('p', 1), ('q', 1), ('t', 1), ('p', 2), ('sp', 2), ('z0', 0), ('sh', 3), ('viar', 1), ('atom', 1), ('functor', 1), ('functor', 2), ('variable', 1), ('query', 1), ('unify', 1), ('makelist', 1)]
